@@ -640,6 +640,7 @@ func checkC19(c *Ctx) int {
 	}
 	// store migration (datastore.MigrateInstance / MigrateBatch): c19_migrate.go
 	c19Migrate(c, run, migRuns, &states, &trans, &nreads, &cfgs)
+	c19Filter(c, run, &states, &trans, &nreads, &ncopies, &cfgs) // copies with filter=roi:<roi>,<uuid> (c19_filter.go)
 	run.Set("states", states)
 	run.Set("transitions", trans)
 	run.Set("traces_validated_against_impl", nreads)
@@ -653,6 +654,7 @@ func checkC19(c *Ctx) int {
 	run.Assume = []string{"TLC bounded enumeration of shapes (<= 4 nodes quick, <= 5 thorough, <= 3 parents)", "flattened copies are made only of data without merge conflicts (a conflicting read has no defined copy)",
 		"uint8blk data are written, never deleted (the datatype has no block deletion); uint8blk rewrites its extents entry at every node that writes a block, so a merge of two writing branches is a conflict of that entry and no flattened copy is made there; a roi is key-only, so only presence is compared", "labelmap/labelarray instances (own copy semantics, in-memory indices) are not covered"}
 	run.Assume = append(run.Assume, c19MigrateAssume...)
+	run.Assume = append(run.Assume, c19FilterAssume...)
 	fmt.Printf("C19: %v; %d copies, %d reads compared in %.1fs; violations=%d\n", cfgs, ncopies, nreads, since(t0), run.Violations())
 	return run.Finish()
 }
